@@ -31,11 +31,11 @@ def monitor(tier, seed, progress):
     warnings.simplefilter('ignore')
     rng = C.rng_for(seed, PID + ':monitor')
     viol, n_checks = {}, 0
-    styles = ['walk', 'trend', 'flat', 'alternating', 'constant', 'spiky', 'big', 'tiny', 'awkward']
+    styles = ['walk', 'trend', 'flat', 'alternating', 'constant', 'spiky', 'big', 'tiny', 'awkward', 'noisy_then_flat', 'flat_then_noisy']
     periods = [2, 3, 5, 14, 20, 33, 60] if tier == 'quick' else list(range(2, 61))
     for style in styles:
         for p in periods:
-            n = rng.choice([p + 1, 2 * p + 3, 90, 150])
+            n = rng.choice([p + 1, 2 * p + 3, 90, 150]) if not style.endswith('_flat') and not style.startswith('flat_then') else 4 * p + 40
             cs, _ = ind.gen_series(rng, n, style)
             arr = np.array(cs)
             scale = float(np.nanmax(np.abs(arr[:, 1:5])))
@@ -96,6 +96,67 @@ def monitor(tier, seed, progress):
                     for i in np.where(ok)[0]:
                         if arr[i, 3] > up[i] + tol or arr[i, 4] < low[i] - tol:
                             bad('channel_does_not_enclose_price:donchian', index=int(i)); break
+            # definitions of the windowed indicators that have no Coq model (square roots, absolute deviations): a straightforward reference
+            # computed window by window with exactly rounded sums; compared where the definition is well conditioned
+            import math as _m
+            tp_ = [(r_[3] + r_[4] + r_[2]) / 3.0 for r_ in cs]
+            cl_ = [r_[2] for r_ in cs]
+
+            def cmp_series(name, got, want, cond, rtol=1e-6):
+                nonlocal n_checks
+                n_checks += 1
+                if got is None or len(got) != len(want):
+                    bad(f'definition:{name}', reason='length', got=None if got is None else len(got), want=len(want)); return
+                for i_, (g_, w_, c_) in enumerate(zip(got, want, cond)):
+                    if w_ is None:
+                        if not (g_ != g_):
+                            bad(f'definition:{name}', index=i_, implementation=float(g_), definition='undefined (window not full)'); return
+                        continue
+                    if not c_:
+                        continue
+                    if g_ != g_ or abs(g_ - w_) > rtol * max(1.0, abs(w_)) * (scale if name in ('stddev', 'bollinger') else 1.0):
+                        bad(f'definition:{name}', index=i_, implementation=float(g_), definition=float(w_)); return
+            if n >= p:
+                want, cond = [], []
+                for i_ in range(n):
+                    if i_ < p - 1: want.append(None); cond.append(True); continue
+                    w_ = tp_[i_ - p + 1:i_ + 1]; m_ = _m.fsum(w_) / p; md_ = _m.fsum(abs(x_ - m_) for x_ in w_) / p
+                    s_ = 0.0
+                    for x_ in w_: s_ += x_
+                    # a flat window counts only when the plain left-to-right float mean of it is exact: then the definition gives md = 0 and CCI = 0
+                    # without any rounding; on other flat windows the value is 0/0 up to rounding and nothing is demanded
+                    flat_ = all(x_ == w_[0] for x_ in w_) and s_ / p == w_[0]
+                    want.append(0.0 if flat_ else (tp_[i_] - m_) / (0.015 * md_) if md_ > 0 else 0.0)
+                    cond.append(flat_ or md_ > 1e-9 * scale)
+                progress(dict(base, indicator='cci'))
+                try: cmp_series('cci', ind.numeric_array(ta.cci(arr, p, sequential=True)), want, cond, rtol=1e-6)
+                except Exception: pass
+                want, cond = [], []
+                for i_ in range(n):
+                    if i_ < p - 1: want.append(None); cond.append(True); continue
+                    w_ = cl_[i_ - p + 1:i_ + 1]; m_ = _m.fsum(w_) / p
+                    want.append(_m.sqrt(_m.fsum((x_ - m_) ** 2 for x_ in w_) / p)); cond.append(True)
+                progress(dict(base, indicator='stddev'))
+                try: cmp_series('stddev', ind.numeric_array(ta.stddev(arr, p, sequential=True)), want, cond, rtol=1e-7)
+                except Exception: pass
+                progress(dict(base, indicator='bollinger_bands'))
+                try:
+                    bb_ = ta.bollinger_bands(arr, p, sequential=True)
+                    mids_ = [None if i_ < p - 1 else _m.fsum(cl_[i_ - p + 1:i_ + 1]) / p for i_ in range(n)]
+                    cmp_series('bollinger', ind.numeric_array(bb_.upperband), [None if m_ is None else m_ + 2 * s_ for m_, s_ in zip(mids_, want)], cond, rtol=1e-7)
+                    cmp_series('bollinger', ind.numeric_array(bb_.lowerband), [None if m_ is None else m_ - 2 * s_ for m_, s_ in zip(mids_, want)], cond, rtol=1e-7)
+                except Exception: pass
+                if n > p:
+                    vol_ = [r_[5] for r_ in cs]
+                    want, cond = [], []
+                    for i_ in range(n):
+                        if i_ < p: want.append(None if i_ < p - 1 else 0.0); cond.append(i_ < p - 1); continue
+                        pos_ = _m.fsum(tp_[j_] * vol_[j_] for j_ in range(i_ - p + 1, i_ + 1) if tp_[j_] > tp_[j_ - 1])
+                        neg_ = _m.fsum(tp_[j_] * vol_[j_] for j_ in range(i_ - p + 1, i_ + 1) if tp_[j_] < tp_[j_ - 1])
+                        want.append(100.0 if neg_ == 0 else 100 - 100 / (1 + pos_ / neg_)); cond.append(neg_ == 0 or neg_ > 1e-9 * scale)
+                    progress(dict(base, indicator='mfi'))
+                    try: cmp_series('mfi', ind.numeric_array(ta.mfi(arr, p, sequential=True)), want, cond, rtol=1e-6)
+                    except Exception: pass
             # homogeneity: scaling the prices by 4 scales the average by 4 (exact in binary64)
             for name in HOMOGENEOUS:
                 f = getattr(ta, name, None)
